@@ -54,7 +54,10 @@ func c08MapScripts(k *h.Case, g *spec.Gen) *spec.MapScripts {
 			}
 			for j := 0; j < rows; j++ {
 				row := &spec.MSRow{ID: g.Prog.NewID(), Var: []string{g.Name("VAR_T")}, Value: []string{fmt.Sprint(r.IntN(9))}}
-				switch r.IntN(7) {
+				switch r.IntN(8) {
+				case 7:
+					// a function-like macro with a comma inside its parentheses as comparison value
+					row.Value = []string{"MAC_VAL", "(", fmt.Sprint(j), ",", "2", ")"}
 				case 0:
 					row.Value = []string{g.Name("VAL_"), "+", "1"}
 				case 1:
